@@ -982,6 +982,19 @@ inline bool is_fsym(const Basic &b)
 {
     return is_a<FunctionSymbol>(b);
 }
+// a Subs node that sends two of its variables to the same symbol: differentiating / substituting it runs into
+// the rename clash of SubsVisitor::bvisit(const Derivative &) (docs/C11.md, D-C11-1)
+inline bool is_clash_subs(const Basic &b)
+{
+    if (!is_a<Subs>(b))
+        return false;
+    const map_basic_basic &d = down_cast<const Subs &>(b).get_dict();
+    for (auto i = d.begin(); i != d.end(); ++i)
+        for (auto j = std::next(i); j != d.end(); ++j)
+            if (is_a<Symbol>(*i->second) && eq(*i->second, *j->second))
+                return true;
+    return false;
+}
 inline bool is_acosh(const Basic &b)
 {
     return is_a<ACosh>(b);
